@@ -385,7 +385,7 @@ def edit_step(t, res, wr, src, step, all_args, guess_cap=20000):
     # guesser over the edited disk
     n_orig = len(parsed(orig))
     n_kept = len(parsed(want))
-    if (opt["min"] or opt["max"]) and n_kept:
+    if (opt["min"] or opt["max"]) and n_kept and guess_cap > 0:
         from lib_guesser.priority_queue import PcfgQueue
         out = guesser.LineRecorder()
         try:
@@ -434,7 +434,7 @@ def run_one(tape, tier, prop):
 # C17 across real processes: "the first N of the unbounded list" and "the same list to a file" are statements about
 # separate invocations of prince_ling.py, each a fresh interpreter with its own string-hash seed
 
-def shipped_edit_job(name, seed):
+def shipped_edit_job(name, seed, inflate=False):
     """a history of 2-3 edits on a scratch copy of a shipped ruleset (11 000 - 37 000 base structures of every shape the
     trainer writes), judged by the same edit_step oracle"""
     import shutil
@@ -446,16 +446,32 @@ def shipped_edit_job(name, seed):
     shutil.copytree(bigworld.shipped_dir(name), os.path.join(wr, "Rules", "S0"))
     src = "S0"
     all_args = []
+    if inflate:
+        # a base-structure file of several MiB (a ruleset trained on a very large list): 150 000 - 250 000 further
+        # structures spelled with the ruleset's own variables, so that sizes differ by orders of magnitude between files
+        ref = bigworld.ref_for(name)
+        labels = sorted(v for v in ref.vars if v[0] in "ADOKXY" and ref.vars[v])
+        gfile = os.path.join(wr, "Rules", "S0", "Grammar", "grammar.txt")
+        have = {b["text"] for b in ref.base}
+        lines = []
+        target = t.between(150000, 250000)
+        while len(lines) < target:
+            s = "".join(labels[t.draw(len(labels))] for _ in range(5))
+            if s not in have:
+                have.add(s)
+                lines.append("%s\t1e-12\n" % s)
+        with open(gfile, "ab") as f:
+            f.write("".join(lines).encode("ascii"))
     with guesser.streams():
         for step in range(t.between(2, 3)):
-            out = edit_step(t, res, wr, src, step, all_args, guess_cap=3000)
+            out = edit_step(t, res, wr, src, step, all_args, guess_cap=0 if inflate else 3000)
             if out is None:
                 break
             src, n_orig, n_kept, _shape = out
             if n_kept == 0:
                 break
     shutil.rmtree(os.path.join(wr, "Rules"), ignore_errors=True)
-    return {"name": name, "edits": all_args, "violations": [v.as_dict() for v in res.violations if v.prop == "C20" and v.key is None],
+    return {"name": name, "edits": all_args, "inflated": inflate, "violations": [v.as_dict() for v in res.violations if v.prop == "C20" and v.key is None],
             "guesses": res.stats.get("guesses_length_checked", 0)}
 
 
@@ -465,10 +481,11 @@ def shipped_edit_phase(tier, base_seed):
     out = {"shipped_ruleset_edit_histories": 0, "shipped_ruleset_edits": 0, "shipped_ruleset_guess_lengths_checked": 0, "violations": []}
     if not names:
         return out
-    jobs = [(names[(base_seed + i) % len(names)], base_seed * 7001 + 11 + i) for i in range(1 if tier == "quick" else 12)]
+    jobs = [(names[(base_seed + i) % len(names)], base_seed * 7001 + 11 + i, i % 2 == 0) for i in range(2 if tier == "quick" else 12)]
     for r in bigworld._fan_out(shipped_edit_job, jobs, workers=6):
         out["shipped_ruleset_edit_histories"] += 1
         out["shipped_ruleset_edits"] += len(r["edits"])
+        out["shipped_ruleset_histories_with_multi_MiB_grammar"] = out.get("shipped_ruleset_histories_with_multi_MiB_grammar", 0) + (1 if r["inflated"] else 0)
         out["shipped_ruleset_guess_lengths_checked"] += r["guesses"]
         for v in r["violations"][:1]:
             v = dict(v, kind="shipped_ruleset:" + v["kind"])
